@@ -1104,13 +1104,31 @@ class DomainMapping(CanBehaveLikeAVariable[T], ABC):
         for child_v in child_val:
             for v in self._apply_mapping_(child_v[self._child_._id_]):
                 values = copy(child_v)
-                if (not self._invert_ and v.value) or (self._invert_ and not v.value):
+                if not self._is_a_condition_:
+                    # Used as a value (operand, argument, selected output): its truthiness is irrelevant.
+                    self._is_false_ = False
+                elif (not self._invert_ and v.value) or (self._invert_ and not v.value):
                     self._is_false_ = False
                 else:
                     self._is_false_ = True
                 if self._yield_when_false_ or not self._is_false_:
                     values[self._id_] = v
                     yield values
+
+    @property
+    def _is_a_condition_(self) -> bool:
+        """
+        Whether this mapping stands in condition position (its value is interpreted as a boolean), in contrast to
+        being used as a value, e.g. an operand of a comparison, an argument, or a selected variable.
+        """
+        parent = self._parent_
+        if isinstance(parent, LogicalOperator):
+            return True
+        if isinstance(parent, ForAll):
+            return parent.condition is self
+        if isinstance(parent, QueryObjectDescriptor):
+            return parent._child_ is self
+        return False
 
     @abstractmethod
     def _apply_mapping_(self, value: HashedValue) -> Iterable[HashedValue]:
